@@ -12,6 +12,11 @@ Reading guide: `GammaLe ev rows ratio ut h eps` ⇔ `gamma(h) ≤ bound()` entry
 `h` is ANY rational prediction vector.  Hard predictions (`Hard h`, entries 0/1) are where MetricFrame's
 `selection_rate` / `true_positive_rate` / `false_positive_rate` apply directly; for a randomised classifier
 the same inequalities hold for the EXPECTED rates (`expected_rates_of_constraint`, via affinity of gamma).
+
+Review R1: the generic theorems take the event's row selector as a hypothesis `hS : ∀ r, inE ev e r = (S r && r.y == c)`;
+the last section instantiates it for the real rules `eventOf .tpr / .fpr / .eo` (`S := fun r => r.c == none` without
+control features — NOT `fun _ => true`, which no real rule satisfies for rows carrying a control value —, and
+`S := fun r => r.c == some c0` inside a stratum).
 -/
 import FairModel.Lemmas.CrossFrame
 
@@ -476,5 +481,75 @@ def xRowsC : List Row :=
 example : GammaLe (eventOf .dp) xRowsC 1 defaultUtil [1, 1, 0, 1, 0] (1/3) := by decide +kernel
 example : named "demographic_parity_difference" .toOverall 1
     (toFrame (fun r => r.c == some "y") xRowsC [1, 1, 0, 1, 0]) = some (.value (fin (1/3))) := by decide +kernel
+
+
+/-! ### review R1: the selector hypotheses `hS` ARE met by the real event rules (instances) -/
+
+/-- TruePositiveRateParity WITHOUT control features ⇒ equal_opportunity_difference bounds on the frame of all
+    (control-free) rows -/
+theorem tpr_constraint_bounds_eopp (rows : List Row) (h : List Rat) (eps : Rat)
+    (hl : h.length = rows.length) (hh : Hard h) (hy : ∀ r ∈ rows, r.y = 0 ∨ r.y = 1)
+    (hne : rows.filter (fun r => r.c == none) ≠ [])
+    (hcov : ∀ r ∈ rows, (r.c == none) = true → ∃ r2 ∈ rows, (r2.c == none) = true ∧ r2.g = r.g ∧ r2.y = 1)
+    (hg : GammaLe (eventOf .tpr) rows 1 defaultUtil h eps) :
+    (∃ D, named "equal_opportunity_difference" .toOverall 1 (toFrame (fun r => r.c == none) rows h) = some (.value (fin D)) ∧
+      0 ≤ D ∧ D ≤ eps) ∧
+    (∃ D, named "equal_opportunity_difference" .between 1 (toFrame (fun r => r.c == none) rows h) = some (.value (fin D)) ∧
+      0 ≤ D ∧ D ≤ 2 * eps) :=
+  eopp_difference_le_of_constraint (eventOf .tpr) rows h eps (MomentsSrc.labelEvent 1) (fun r => r.c == none)
+    hl hh hy hne (fun r => tpr_inE_nocontrol r) hcov hg
+
+/-- TruePositiveRateParity WITH control features ⇒ the same bounds within stratum `c0` -/
+theorem tpr_constraint_bounds_eopp_in_stratum (rows : List Row) (h : List Rat) (eps : Rat) (c0 : String)
+    (hl : h.length = rows.length) (hh : Hard h) (hy : ∀ r ∈ rows, r.y = 0 ∨ r.y = 1)
+    (hne : rows.filter (fun r => r.c == some c0) ≠ [])
+    (hcov : ∀ r ∈ rows, (r.c == some c0) = true → ∃ r2 ∈ rows, (r2.c == some c0) = true ∧ r2.g = r.g ∧ r2.y = 1)
+    (hg : GammaLe (eventOf .tpr) rows 1 defaultUtil h eps) :
+    (∃ D, named "equal_opportunity_difference" .toOverall 1 (toFrame (fun r => r.c == some c0) rows h) = some (.value (fin D)) ∧
+      0 ≤ D ∧ D ≤ eps) ∧
+    (∃ D, named "equal_opportunity_difference" .between 1 (toFrame (fun r => r.c == some c0) rows h) = some (.value (fin D)) ∧
+      0 ≤ D ∧ D ≤ 2 * eps) :=
+  eopp_difference_le_of_constraint (eventOf .tpr) rows h eps (MomentsSrc.ctrlFormat c0 (MomentsSrc.labelEvent 1))
+    (fun r => r.c == some c0) hl hh hy hne (fun r => C06.tpr_event_selects_in_stratum r c0) hcov hg
+
+/-- FalsePositiveRateParity, without control features and within a stratum -/
+theorem fpr_constraint_bounds (rows : List Row) (h : List Rat) (eps : Rat) (c0 : Option String)
+    (hl : h.length = rows.length) (hh : Hard h) (hy : ∀ r ∈ rows, r.y = 0 ∨ r.y = 1)
+    (hne : rows.filter (fun r => r.c == c0) ≠ [])
+    (hcov : ∀ r ∈ rows, (r.c == c0) = true → ∃ r2 ∈ rows, (r2.c == c0) = true ∧ r2.g = r.g ∧ r2.y = 0)
+    (hg : GammaLe (eventOf .fpr) rows 1 defaultUtil h eps) :
+    (∃ D, run .fpr .difference .toOverall true 1 (toFrame (fun r => r.c == c0) rows h) = .value (fin D) ∧ 0 ≤ D ∧ D ≤ eps) ∧
+    (∃ D, run .fpr .difference .between true 1 (toFrame (fun r => r.c == c0) rows h) = .value (fin D) ∧ 0 ≤ D ∧ D ≤ 2 * eps) := by
+  cases c0 with
+  | none =>
+    exact fpr_difference_le_of_constraint (eventOf .fpr) rows h eps (MomentsSrc.labelEvent 0) (fun r => r.c == none)
+      hl hh hy hne (fun r => fpr_inE_nocontrol r) hcov hg
+  | some c =>
+    exact fpr_difference_le_of_constraint (eventOf .fpr) rows h eps (MomentsSrc.ctrlFormat c (MomentsSrc.labelEvent 0))
+      (fun r => r.c == some c) hl hh hy hne (fun r => C06.fpr_event_selects_in_stratum r c) hcov hg
+
+/-- EqualizedOdds WITHOUT control features ⇒ equalized_odds_difference bounds (every group has both labels) -/
+theorem eo_constraint_bounds_eodds (rows : List Row) (h : List Rat) (eps : Rat)
+    (hl : h.length = rows.length) (hh : Hard h) (hy : ∀ r ∈ rows, r.y = 0 ∨ r.y = 1)
+    (hne : rows.filter (fun r => r.c == none) ≠ [])
+    (hcov1 : ∀ r ∈ rows, (r.c == none) = true → ∃ r2 ∈ rows, (r2.c == none) = true ∧ r2.g = r.g ∧ r2.y = 1)
+    (hcov0 : ∀ r ∈ rows, (r.c == none) = true → ∃ r2 ∈ rows, (r2.c == none) = true ∧ r2.g = r.g ∧ r2.y = 0)
+    (hg : GammaLe (eventOf .eo) rows 1 defaultUtil h eps) :
+    (∃ D, eodds "equalized_odds_difference" .toOverall .worstCase 1 (toFrame (fun r => r.c == none) rows h) = some (.value (fin D)) ∧
+      0 ≤ D ∧ D ≤ eps) ∧
+    (∃ D, eodds "equalized_odds_difference" .between .worstCase 1 (toFrame (fun r => r.c == none) rows h) = some (.value (fin D)) ∧
+      0 ≤ D ∧ D ≤ 2 * eps) :=
+  eodds_difference_le_of_constraint (eventOf .eo) rows h eps (MomentsSrc.labelEvent 1) (MomentsSrc.labelEvent 0)
+    (fun r => r.c == none) hl hh hy hne (fun r => eo_inE_nocontrol r 1 (Or.inr rfl)) (fun r => eo_inE_nocontrol r 0 (Or.inl rfl))
+    hcov1 hcov0 hg
+
+/-- all hypotheses of `eo_constraint_bounds_eodds` / `tpr_constraint_bounds_eopp` are met by `xRows`, `xH`, slack 1/4 -/
+example : (∃ D, eodds "equalized_odds_difference" .toOverall .worstCase 1 (toFrame (fun r => r.c == none) xRows xH) = some (.value (fin D)) ∧
+      0 ≤ D ∧ D ≤ 1/4) :=
+  (eo_constraint_bounds_eodds xRows xH (1/4) (by decide) (by decide +kernel) (by decide +kernel) (by decide +kernel)
+    (by decide +kernel) (by decide +kernel) (by decide +kernel)).1
+example : GammaLe (eventOf .tpr) xRows 1 defaultUtil xH (1/4) ∧
+    named "equal_opportunity_difference" .between 1 (toFrame (fun r => r.c == none) xRows xH) = some (.value (fin (1/2))) := by
+  decide +kernel
 
 end C06
